@@ -10,7 +10,7 @@
    Where a statement needs the digest to be collision-free this is an explicit
    premise of that clause. *)
 From Coq Require Import Sorting.Permutation.
-From Oras Require Import Base.Prelude Base.Regex Base.StrCheck Generated.GC19 Model.Pack Proofs.Pack Proofs.PackTime Proofs.PackJson Proofs.PackTie Model.PackEnc Model.PackSha Proofs.PackEnc.
+From Oras Require Import Base.Prelude Base.Regex Base.StrCheck Generated.GC19 Model.Pack Proofs.Pack Proofs.PackTime Proofs.PackJson Proofs.PackTie Model.PackEnc Model.PackSha Proofs.PackEnc Proofs.PackNum.
 
 (* The media-type check accepts exactly RFC 6838 section 4.2:
    restricted-name "/" restricted-name, each 1..127 characters. *)
@@ -622,6 +622,24 @@ Theorem C19_document_declares_artifact_type :
             match m_kind m, m_at m with KImage, [] => None | _, a => Some (utf8_san a) end.
 Proof. exact doc_artifact_type_json. Qed.
 Print Assumptions C19_document_declares_artifact_type.
+
+(* Numbers: the decimal json.Marshal writes for a natural number reads back as that number ... *)
+Theorem C19_json_number_roundtrip :
+  forall n rest,
+    n < pow10 40 ->
+    match rest with c :: _ => is_digit c = false | [] => True end ->
+    read_digits (json_nat n ++ rest) 0 = (n, rest).
+Proof. exact read_json_nat. Qed.
+Print Assumptions C19_json_number_roundtrip.
+
+(* ... and an image manifest document declares the requested config descriptor: its media type and digest
+   (coerced to UTF-8) and its size, read from the head of "config":{...} *)
+Theorem C19_document_declares_config :
+  forall m c n,
+    m_kind m = KImage -> m_config m = Some c -> d_sz c = Z.of_N n -> n < pow10 40 ->
+    doc_config_head (json_manifest m) = Some (utf8_san (d_mt c), utf8_san (d_dg c), n).
+Proof. exact doc_config_head_json. Qed.
+Print Assumptions C19_document_declares_config.
 
 (* ... so the document stored under the returned descriptor declares that descriptor's media type and
    the requested artifact type (for a collision-free digest). *)
